@@ -180,8 +180,9 @@ theorem onnxRound_eq_jaxRoundAway_partial (x : ℚ) (h : x - (x.floor : ℚ) ≠
     roundHalfEven x = Jax.round .awayFromZero x :=
   roundHalfEven_eq_away_of_not_tie x h
 
-/-- … but the full statement `∀ x, roundHalfEven x = Jax.round .awayFromZero x` is FALSE:
-    /repo lowers `lax.round` to a bare `Round` and ignores `rounding_method`. -/
+/-- … but the full statement `∀ x, roundHalfEven x = Jax.round .awayFromZero x` is FALSE — a fact about
+    ONNX `Round` alone.  (Until commit 3e0a3fd /repo lowered `lax.round` to a bare `Round` and ignored
+    `rounding_method`; the repaired recipe is proved in `GenProps/C01.lean::round_away_f32_correct`.) -/
 theorem onnxRound_ne_jaxRoundAway_witness :
     roundHalfEven (1 / 2) = 0 ∧ Jax.round .awayFromZero (1 / 2) = 1 ∧
     roundHalfEven (5 / 2) = 2 ∧ Jax.round .awayFromZero (5 / 2) = 3 ∧
@@ -195,7 +196,7 @@ theorem onnxRound_eq_jaxRoundAway_refuted :
   revert this
   decide +kernel
 
-/-- The candidate repair `Sign(x) · (Floor|x| + [|x| − Floor|x| ≥ ½])` is AWAY_FROM_ZERO. -/
+/-- The repair `Sign(x) · (Floor|x| + [|x| − Floor|x| ≥ ½])` (now in /repo) is AWAY_FROM_ZERO. -/
 theorem roundAwayFix_correct (x : ℚ) : roundAwayFix x = Jax.round .awayFromZero x :=
   roundAwayFix_eq x
 
